@@ -510,6 +510,19 @@ def c06_molecules(tier):
     return out
 
 
+_REC2_V2 = ("second\n  verif\n\n  1  0  0  0  0  0  0  0  0  0999 V2000\n    0.0000    0.0000    0.0000 C   0  0  0  0  0  0  0  0  0  0  0  0\n"
+            "M  CHG  1   1  -1\nM  RAD  1   1   2\nM  ISO  1   1  13\nM  END\n")
+_REC2_V3 = ("second\n  verif\n\n  0  0  0     0  0            999 V3000\nM  V30 BEGIN CTAB\nM  V30 COUNTS 1 0 0 0 0\nM  V30 BEGIN ATOM\n"
+            "M  V30 1 C 0 0 0 0 MASS=13 RAD=2 CHG=-1\nM  V30 END ATOM\nM  V30 END CTAB\nM  END\n")
+_SD_TRAILERS = (
+    ("data-item", "> <NOTE>\nplain text\n\n$$$$\n"),
+    ("data-item-looking-like-properties", "> <NOTE>\nM  ISO  1   1  13\nM  RAD  1   1   2\nM  CHG  1   1  -1\n\n$$$$\n"),
+    ("second-record-v2000", "$$$$\n" + _REC2_V2 + "$$$$\n"),
+    ("data-item+second-record-v2000", "> <ID>\n1\n\n$$$$\n" + _REC2_V2 + "> <ID>\n2\n\n$$$$\n"),
+    ("second-record-v3000", "$$$$\n" + _REC2_V3 + "$$$$\n"),
+)
+
+
 def c06_shard(job):
     tier, mi, M, depth, part, nparts = job
     res = {"exec": 0, "vios": [], "states": 0, "transitions": 0, "nontrivial": 0, "by_kind": {}}
@@ -523,7 +536,7 @@ def c06_shard(job):
         return res
     failing = set()
 
-    def run(label, text):
+    def run(label, text, may_reject=False):
         if " + " in label and any(l in failing for l in label.split(" + ")):
             return
         res["states"] += 1
@@ -537,7 +550,9 @@ def c06_shard(job):
             s = tucan_of_text(text)
             msg = None if s == base else f"TUCAN {s!r} != {base!r} of the default rendering"
         except Exception as ex:
-            msg = f"raised {type(ex).__name__}: {str(ex)[:100]}"
+            msg = None if may_reject else f"raised {type(ex).__name__}: {str(ex)[:100]}"
+            if may_reject:
+                res["by_kind"]["rejected:" + k] = res["by_kind"].get("rejected:" + k, 0) + 1
         if msg:
             failing.add(label)
             res["vios"].append((f"C06|{k}", {"kind": "molfile-pair", "n": len(M.atoms), "molfile_a": t0, "molfile_b": text,
@@ -547,6 +562,11 @@ def c06_shard(job):
     sdevs = [d for d in MF.v3_structure_deviations(M, tier)]
     if part == 0:
         run("v2000-default", MF.v2000_text(M))
+        # trailing data after M  END (SD data items, further records): a reader may refuse such a text, but when it
+        # returns a molecule, what follows the connection table must not leak into it
+        for ver, body in (("v2", MF.v2000_text(M)), ("v3", t0)):
+            for tl, tail in _SD_TRAILERS:
+                run(f"{ver}:sd-trailing[{tl}]", body.rstrip("\r\n") + "\n" + tail, may_reject=True)
         for label, M2 in ddevs:
             run("v3:" + label, MF.v3000_text(M2, sp0))
             if all(abs(c) < 9999.9 for a in M2.atoms for c in a.xyz):
